@@ -70,6 +70,14 @@ def run_property(prop, tier, seed, jobs=None, only=None, verbose=False):
     solver_s = 0.0
     backends = {}
     for r in results:
+        if r.get("optional") and not r["error"]:
+            # a sidecar loop invariant that is not inductive for the current loop body does not
+            # refute the code (the invariant may simply not fit a rewritten loop): the
+            # unbounded-arity proof is then not available and everything else this family
+            # derived from the invariant is void; the bounded-arity families decide
+            bad_inv = [o["name"] for o in r["obls"] if "/loop-invariant:" in o["name"] and o["status"] != "proved"]
+            if bad_inv:
+                r = dict(r, error=f"unsupported: sidecar loop invariant not established for the current loop ({bad_inv[0].split('/', 1)[1]})", obls=[])
         if r["error"] and r.get("optional") and r["error"].startswith("unsupported"):
             notes.append(f"NOTE {prop} {r['family']}: unbounded-arity proof not applicable to the current code shape "
                          f"({r['error'][:120]}); the bounded-arity families decide this method")
